@@ -83,6 +83,7 @@ pub proof fn lemma_push_list(p: Seq<u8>, s: Seq<u8>, fa: bool, at0: bool)
         else { segs(r) =~= segs(p).push(s) }
     }),
 {
+    reveal(push_text0);
     let r = push_text0(p, s, fa, at0);
     assert(no_slash(s));
     if p_is_empty(p) {
